@@ -389,9 +389,12 @@ func regexpQuote(s string) string {
 func whoMayCall(c *Ctx, rule, calleePattern string, allowed []string, needOne bool) {
 	n := 0
 	for _, fn := range c.P.SrcFuncs() {
+		if siteOf(fn) != nil && EnclosingTop(fn) == fn {
+			continue // its calls are listed with its owner
+		}
 		for _, cs := range CallsTo(Calls(fn), calleePattern) {
 			n++
-			top := FuncName(EnclosingTop(fn))
+			top := FuncName(ownerOf(EnclosingTop(fn)))
 			ok := containsStr(allowed, top)
 			c.Ob(rule, cs.Name+"<-"+FuncName(fn), cs.Pos(), ok, fmt.Sprintf("%s is called from %s; allowed callers: %v", cs.Name, FuncName(fn), allowed))
 		}
